@@ -60,6 +60,9 @@ def cv_case(draw, tier, estimators=("Lin", "Proba"), fdrs=(0.31,), weak=False):
         "sep": 1.6 if weak else draw(st.sampled_from([4.0, 5.0])),
         # the spectra frame handed to OnDiskPsmDataset may carry index labels of its own (rows still in file order)
         "own_index": draw(st.sampled_from([False, False, True])),
+        # a fold-count sweep: the same collections (shallow copies sharing one spectra table, the idiom of mokapot's own
+        # tests) were brewed before with another number of folds
+        "sweep_before": draw(st.sampled_from([None, None, None, "fewer", "more"])),
     }
 
 
@@ -127,6 +130,25 @@ def run_brew(case, tmp, train_fdr=0.23, override=True, max_iter=3, estimator=Non
     import mokapot
 
     dfs, metas, psms = build_datasets(case, tmp)
+    if case.get("sweep_before"):
+        import copy
+
+        other = max(2, case["folds"] - 1) if case["sweep_before"] == "fewer" else case["folds"] + 1
+        if other != case["folds"] and min(len(d) for d in dfs) // other >= 12:
+            first = [copy.copy(p) for p in psms]
+            psms = [copy.copy(p) for p in psms]
+            prelog = "pre_" + uuid.uuid4().hex
+            recorder.new_log(prelog)
+            try:
+                with config_inject.chunk_sizes(predict=case.get("predict_chunk"), readall=case.get("readall_chunk")):
+                    pre_model = recorder.make_model((ESTIMATORS[case["est"]] if estimator is None else estimator)(log=prelog),
+                                                    train_fdr=train_fdr, max_iter=1, override=True, shuffle=True)
+                    guarded(mokapot.brew, first, pre_model, test_fdr=case["test_fdr"], folds=other, max_workers=1, rng=case["rng"] + 1,
+                            allowed=ALLOWED_BREW, sig="brew-earlier-fold-count")
+            except Rejected:
+                pass
+            finally:
+                recorder.drop_log(prelog)
     logname = "log_" + uuid.uuid4().hex
     recorder.new_log(logname)
     try:
